@@ -14,7 +14,7 @@ PROP = dict(
         corpus_filter=r"^c07_",
         # len = per-mille of cases that go through the real RPC handlers (rpcrenew3 carries the clearing clauses)
         # extra.sites = per-mille of cases that drive a revision signing site of the real RHP2/RHP3 handlers
-        # (70% single-RPC site cases, 20% two-RPC RHP2 sessions under one lock `q2`, 10% RHP3 execute-paid-by-contract `q3`)
+        # (70% single-RPC site cases, 20% two-RPC RHP2 sessions `q2` over sector roots / read / write / renew-and-clear / form, with or without a lock, 10% RHP3 execute-paid-by-contract `q3`)
         quick=dict(n=120000, len=60, shards=8, timeout=300, extra=dict(sites=250)),
         thorough=dict(n=3000000, len=60, shards=32, timeout=1500, extra=dict(sites=250)),
         nontrivial=r"res=(accept|panic)", min_ops=1, min_kinds=1,
@@ -26,7 +26,7 @@ PROP = dict(
             "session cases (q2, q3): the host's store is a one-contract state behind the stubs (Lock hands out what it holds, every commit replaces it); each step is judged against the revision the store held before the request",
             "the set of signing sites is read from the source (every function of rhp/v2, rhp/v3 calling SignHash) and compared with the model's table on every run",
         ],
-        level_text="for ALL (current, proposed) revision pairs and all price/collateral arguments the Lean model of validateStdRevision/ValidateRevision/ValidateProgramRevision/ValidatePaymentRevision/ValidateClearingRevision/Revise/ClearingRevision (statement-by-statement transcription incl. indexing order and panicking Currency arithmetic) is proved to accept only inputs satisfying every clause of the property (accept_safe), and never to panic (no_panic_fixed: the guards as /repo has them since commits 44e5446..839f27b; the driver runs the `fixed` variant); for the guards as they were before those commits the negation of no_panic is proved with concrete witnesses, together with no_panic_partial under the excluding hypotheses; the model is tied to the code by seeded field-wise perturbation cases executed on the real functions and replayed through the compiled model (class + returned values compared), the property clauses are evaluated as monitors on the implementation's own verdicts; every call site of the RHP2/RHP3 handlers that produces a host signature over a revision (table signingSites: form, renew+clear, sector roots, read, write, pay-by-contract, fund account, program finalisation, RHP3 renew) is proved guarded (all_sites_guarded: the guard of the site implies the safety clauses between the held and the counter-signed revision) and is driven on the real handler with correctly signed hostile proposals, each clause violated alone, the clauses being evaluated on the revision the host actually signed / stored; sessions (cached vs stored revision) are a small state machine: every handler keeps cached = stored after its commit and therefore guards against the stored revision (sessStep_inv, sessStep_accept_safe, session2_safe, execByContract_safe; stale_cache_witness for a handler that does not refresh), driven as two-RPC RHP2 sessions (real upgrade/rpcLock/rpcLoop; second request fresh, stale, replayed or hostile) and RHP3 execute paid by contract; the current revision of every case family is adversarially general (renter missed payout <, =, > valid payout, host missed <= valid, arbitrary void; shares in the evidence distribution v:/s:/q:cur_missed_lt_valid …)",
+        level_text="for ALL (current, proposed) revision pairs and all price/collateral arguments the Lean model of validateStdRevision/ValidateRevision/ValidateProgramRevision/ValidatePaymentRevision/ValidateClearingRevision/Revise/ClearingRevision (statement-by-statement transcription incl. indexing order and panicking Currency arithmetic) is proved to accept only inputs satisfying every clause of the property (accept_safe), and never to panic (no_panic_fixed: the guards as /repo has them since commits 44e5446..839f27b; the driver runs the `fixed` variant); for the guards as they were before those commits the negation of no_panic is proved with concrete witnesses, together with no_panic_partial under the excluding hypotheses; the model is tied to the code by seeded field-wise perturbation cases executed on the real functions and replayed through the compiled model (class + returned values compared), the property clauses are evaluated as monitors on the implementation's own verdicts; every call site of the RHP2/RHP3 handlers that produces a host signature over a revision (table signingSites: form, renew+clear, sector roots, read, write, pay-by-contract, fund account, program finalisation, RHP3 renew) is proved guarded (all_sites_guarded: the guard of the site implies the safety clauses between the held and the counter-signed revision) and is driven on the real handler with correctly signed hostile proposals, each clause violated alone, the clauses being evaluated on the revision the host actually signed / stored; sessions (cached vs stored revision) are a small state machine: every handler keeps cached = stored after its commit and therefore guards against the stored revision (sessStep_inv, sessStep_accept_safe, session2_safe, execByContract_safe; stale_cache_witness for a handler that does not refresh; a renewal step leaves cached = stored = the clearing revision, after_renewal_nothing_accepted, stale_after_renewal_witness = the defect repaired by /repo 778b5c0), driven as two-RPC RHP2 sessions (real upgrade/rpcLock/rpcLoop; second request fresh, stale, replayed or hostile) and RHP3 execute paid by contract; the current revision of every case family is adversarially general (renter missed payout <, =, > valid payout, host missed <= valid, arbitrary void; shares in the evidence distribution v:/s:/q:cur_missed_lt_valid …)",
         level_note="trusted: Lean kernel (+propext, Quot.sound, Classical.choice), core's Currency arithmetic, id representation of hashes, harness canonicalisation",
         assumptions=["clearing revisions are judged by the second sentence of the property (missed outputs become the valid outputs: the number of missed outputs legitimately changes from 3 to 2)",
                      "before commits 44e5446..1271abf three clauses needed a well-formed current revision (valid sum = missed sum, two valid outputs, not locked); the repaired validators check the shape themselves"],
